@@ -219,7 +219,22 @@ def one_split(ctx, Network, A, w, W, directed, v, p, cid, measures,
     conn = G.connected(A)
     with warnings.catch_warnings():
         warnings.simplefilter("ignore")
-        n0 = mk(Network, A, w, W, directed)
+        ru = ctx.rng("used", cid, v, int(p * 1000), depth)
+        if ru.random() < 0.3:
+            # the original network object has a past: it was analysed with
+            # other node weights before it got the present ones
+            w_old = G.pos_weights(ru, n, "loguni")
+            n0 = mk(Network, A, w_old, W, directed)
+            for mm, kw, _, need in [measures[i] for i in
+                                    ru.permutation(len(measures))[:4]]:
+                if "key" in kw and W is None or "arenas" in mm or \
+                        "newman" in mm:
+                    continue
+                ctx.call(getattr(n0, mm), **kw)
+            n0.node_weights = w
+            ctx.count("originals_used_before")
+        else:
+            n0 = mk(Network, A, w, W, directed)
         n1 = mk(Network, A2, w2, W2, directed)
         ctx.count("split_pairs")
         if crosscheck:
